@@ -22,14 +22,17 @@ def arm_leaves(core, fn):
         raise CheckerError("Value::%s does not match on (self, other): %s" % (fn, S.show(sc)))
     out = {}
     for a in m["arms"]:
-        env = S.Env()
-        pats = a["pat"]["pats"] if H.kind(a["pat"]) == "Tuple" else []
-        for i, p in enumerate(pats):
-            for bn in H.pat_binds(p):
-                env.roles[bn] = L if i == 0 else R
-        lv = []
-        B.leaves(a["body"], env, lv)
-        out[S.pat_sig(a["pat"])] = (lv, a)
+        # `(List(a), List(b)) | (Spread(List(a)), Spread(List(b))) => ..`: one body for several pairs - each alternative is a row
+        alts = a["pat"]["pats"] if H.kind(a["pat"]) == "Or" else [a["pat"]]
+        for alt in alts:
+            env = S.Env()
+            pats = alt["pats"] if H.kind(alt) == "Tuple" else []
+            for i, p in enumerate(pats):
+                for bn in H.pat_binds(p):
+                    env.roles[bn] = L if i == 0 else R
+            lv = []
+            B.leaves(a["body"], env, lv)
+            out.setdefault(S.pat_sig(alt), (lv, a))
     return out
 
 
@@ -206,44 +209,8 @@ def run(ctx):
     ctx.inst("C12.R3", "compare#String", S.verdict_opt(c, ("call", "partial_cmp", sl, sr)), "compare: %s" % (S.show(c) if c else None), H.loc(CMP[key][1]["body"]) if key in CMP else None)
     e = single_value(EQ, ("tup", ("Null",), ("Null",)))
     ctx.inst("C12.R3", "equals#Null", S.verdict_opt(e, ("lit", "true")), "equals(null, null): %s" % (S.show(e) if e else None), None)
-    # lists
-    key = ("tup", ("List",), ("List",))
-    ll, lr = reified("as_list", L), reified("as_list", R)
-    if key in EQ:
-        lv = vals(EQ[key][0])
-        want = [("when", ("bin", "Ne", ("call", "len", ll), ("call", "len", lr)), ("return", ("lit", "false"))),
-                ("loop-over", ("call", "zip", ll, lr)),
-                ("when", ("un", "Not", ("try", ("call", "equals", ("loopvar",), ("loopvar",)))), ("return", ("lit", "false"))),
-                ("value", ("lit", "true"))]
-        v_list = S.verdict(tuple(lv), tuple(want))
-        if v_list is not True and any(S.contains_call(x, "compare") or S.contains_call(x, "partial_cmp") or S.contains_call(x, "stringify") or S.contains_call(x, "stringify_internal") for x in lv):
-            v_list = False  # equality answered through the ordering (no answer for null / records / functions) or through a printed form
-        ctx.inst("C12.R3", "equals#List", v_list, "equals on lists: length test `!=`, zip of both lists, first unequal element -> false, else true: %s" % (lv == want), H.loc(EQ[key][1]["body"]))
-    else:
-        ctx.inst("C12.R3", "equals#List", False, "no (List, List) arm in equals", None)
-    key_r = ("tup", ("Record",), ("Record",))
-    rl, rr = reified("as_record", L), reified("as_record", R)
-    if key_r in EQ:
-        lv = vals(EQ[key_r][0])
-        ok = len(lv) == 4 and lv[0] == ("when", ("bin", "Ne", ("call", "len", rl), ("call", "len", rr)), ("return", ("lit", "false"))) and lv[1] == ("loop-over", rl) and lv[3] == ("value", ("lit", "true"))
-        if ok:
-            mt = lv[2][1]
-            ok = mt[0] == "match" and mt[1] == ("call", "get", ("hoisted", rr), ("loopvar",))
-            arms = dict(mt[2]) if ok else {}
-            ok = ok and arms.get(("None",)) == ("ret", ("lit", "false")) and ("Some",) in arms
-        # the Some arm: `if !a_value.equals(b_value)? { return false }`
-        some_ok = False
-        for n in H.walk(EQ[key_r][1]["body"]):
-            if H.kind(n) == "If":
-                c_ = H.strip(n["cond"])
-                if H.kind(c_) == "Unary" and c_["op"] == "Not":
-                    inner = H.strip(c_["e"])
-                    if H.kind(inner) == "Try" and H.kind(H.strip(inner["e"])) == "MethodCall" and H.strip(inner["e"])["name"] == "equals":
-                        rets = [x for x in H.walk(n["then"]) if H.kind(x) == "Ret"]
-                        some_ok = bool(rets)
-        ctx.inst("C12.R3", "equals#Record", ok and some_ok, "equals on records: exact length test, every key of the left looked up in the right, missing/unequal -> false (key order ignored): %s/%s" % (ok, some_ok), H.loc(EQ[key_r][1]["body"]))
-    else:
-        ctx.inst("C12.R3", "equals#Record", False, "no (Record, Record) arm in equals", None)
+    # lists and records: structural (shared with C06 / C11)
+    structural_equality(ctx, "C12.R3", core)
     # different kinds never equal / never ordered
     e, c = single_value(EQ, ("_",)), single_value(CMP, ("_",))
     ctx.inst("C12.R3", "equals#other", S.verdict_opt(e, ("lit", "false")), "wildcard arm of equals: %s" % (S.show(e) if e else None), None)
@@ -339,7 +306,7 @@ def structural_equality(ctx, rid, core):
             v_list = False  # equality answered through the ordering (no answer for null / records / functions) or through a printed form
         ctx.inst(rid, "equals#List", v_list, "equals on lists: length test `!=`, zip of both lists, first unequal element -> false, else true: %s" % (lv == want), H.loc(EQ[key][1]["body"]))
     else:
-        ctx.inst(rid, "equals#List", False, "no (List, List) arm in equals", None)
+        ctx.inst(rid, "equals#List", None, "no (List, List) arm found in equals", None)
     key_r = ("tup", ("Record",), ("Record",))
     rl, rr = reified("as_record", L), reified("as_record", R)
     if key_r in EQ:
@@ -360,9 +327,17 @@ def structural_equality(ctx, rid, core):
                     if H.kind(inner) == "Try" and H.kind(H.strip(inner["e"])) == "MethodCall" and H.strip(inner["e"])["name"] == "equals":
                         rets = [x for x in H.walk(n["then"]) if H.kind(x) == "Ret"]
                         some_ok = bool(rets)
-        ctx.inst(rid, "equals#Record", ok and some_ok, "equals on records: exact length test, every key of the left looked up in the right, missing/unequal -> false (key order ignored): %s/%s" % (ok, some_ok), H.loc(EQ[key_r][1]["body"]))
+        v_rec = True if (ok and some_ok) else None
+        body_r = EQ[key_r][1]["body"]
+        if v_rec is None:
+            # another way of writing the walk (`let Some(b) = other.get(key) else { return Ok(false) }`): positively wrong is only an
+            # equality that goes through the ordering or a printed form, that never calls equals on the members, or that has no size test
+            calls_ = {x["name"] for x in H.walk(body_r) if H.kind(x) == "MethodCall"}
+            if calls_ & {"compare", "partial_cmp", "stringify", "stringify_internal", "to_string"} or "equals" not in calls_ or "len" not in calls_ or "get" not in calls_ and "contains_key" not in calls_:
+                v_rec = False
+        ctx.inst(rid, "equals#Record", v_rec, "equals on records: exact length test, every key of the left looked up in the right, missing/unequal -> false (key order ignored): %s/%s" % (ok, some_ok), H.loc(EQ[key_r][1]["body"]))
     else:
-        ctx.inst(rid, "equals#Record", False, "no (Record, Record) arm in equals", None)
+        ctx.inst(rid, "equals#Record", None, "no (Record, Record) arm found in equals", None)
 
 
 def list_compare_rule(ctx, rid, core):
